@@ -78,6 +78,8 @@ _add("SmVerif.Tie.HermesDecode", "RsHermesDecode", [_T + "HermesDecode." + n for
     "loop2_cons_err loop2_cons_ok tie_loop2 loop2_error_panic loop2_total tie_loop1 loop1_error_panic loop1_total tie_decode_function_map decode_function_map_nums_irrel decode_function_map_eq bytes_needed tie_decode_sources decodeAll_eq gen_c14_decode_eq_metro gen_c14_decode_all_eq_metro gen_c14_decode_unreadable gen_c14_decode_unparsable gen_c14_decode_bad_map_local gen_c14_decode_panic_iff gen_c14_decode_no_overflow gen_c14_decode_safe gen_c14_decode_all_safe".split()])
 _add("SmVerif.Tie.GetLine", "RsGetLine", [_T + "GetLine." + n for n in
     "tie_scan_step loop1_done loop1_panic tie_loop1_above tie_loop1 tie_loop1_diverge tie_loop1_same_fuel loop1_fuel_witness loop1_enough get_line_seq_eq tie_get_line_seq tie_get_line_seq_fuel genRun_eq_runReqs gen_c15_inv gen_c15_get_line gen_c15_no_panic gen_c15_run gen_c16_loop_step gen_c16_loop_panic".split()])
+_add("SmVerif.Tie.RevIter", "RsRevIter", [_T + "RevIter." + n for n in
+    "tie_take_bytes tie_drop_bytes loop1_eq loop2_eq loop3_eq loop4_eq tie_loop1 tie_loop1_str tie_loop2 tie_rev_token_iter_next tie_rev_token_iter_next_none tie_rev_token_iter_next_ok tie_rev_token_iter_next_error tie_rev_token_iter_next_str nextTok_eq_get_token revNext_shape revNext_cache_inv lines_are_enc sentinel_discrepancy tie_rev_collect gen_c17_rev_cache_correct gen_c17_rev_no_panic gen_c17_rev_underflow_unsorted".split()])
 _add("SmVerif.Tie.Builder", "RsBuilder", [_T + n for n in
     "tie_add_source_with_id tie_add_source tie_add_name tie_add_with_id tie_add tie_add_raw tie_set_source tie_set_source_contents tie_get_source tie_get_source_contents tie_has_source_contents tie_take_mapping tie_step tie_run_along tie_run tie_run_error tie_run_gen add_source_with_id_truncation gen_c13_abs_add_source gen_c13_abs_add_name gen_c13_inv_reachable gen_c13_builder_refines gen_c13_token_resolves".split()])
 _add("SmVerif.Tie.JsIdent", "RsJsIdent", [_T + "JsIdent." + n for n in
@@ -111,7 +113,7 @@ PROP_MODULES = {
     "C02": ["SmVerif.Tie.Vlq", "SmVerif.Tie.Decode", "SmVerif.Tie.Props", "SmVerif.Tie.Prefix"],
     "C03": ["SmVerif.Tie.Vlq", "SmVerif.Tie.Serialize"],
     "C04": ["SmVerif.Tie.Lookup", "SmVerif.Tie.Props", "SmVerif.Tie.Index"],
-    "C05": ["SmVerif.Tie.Vlq", "SmVerif.Tie.Header", "SmVerif.Tie.Decode", "SmVerif.Tie.Lookup", "SmVerif.Tie.Hermes", "SmVerif.Tie.Serialize", "SmVerif.Tie.Props", "SmVerif.Tie.SourceView", "SmVerif.Tie.Detect", "SmVerif.Tie.RamBundle", "SmVerif.Tie.JsIdent", "SmVerif.Tie.Reader", "SmVerif.Tie.Index", "SmVerif.Tie.Adjust", "SmVerif.Tie.HermesDecode", "SmVerif.Tie.GetLine", "SmVerif.Tie.Flatten", "SmVerif.Tie.Rewrite"],
+    "C05": ["SmVerif.Tie.Vlq", "SmVerif.Tie.Header", "SmVerif.Tie.Decode", "SmVerif.Tie.Lookup", "SmVerif.Tie.Hermes", "SmVerif.Tie.Serialize", "SmVerif.Tie.Props", "SmVerif.Tie.SourceView", "SmVerif.Tie.Detect", "SmVerif.Tie.RamBundle", "SmVerif.Tie.JsIdent", "SmVerif.Tie.Reader", "SmVerif.Tie.Index", "SmVerif.Tie.Adjust", "SmVerif.Tie.HermesDecode", "SmVerif.Tie.GetLine", "SmVerif.Tie.Flatten", "SmVerif.Tie.Rewrite", "SmVerif.Tie.RevIter"],
     "C06": ["SmVerif.Tie.Vlq", "SmVerif.Tie.Decode", "SmVerif.Tie.Props"],
     "C07": ["SmVerif.Tie.Vlq", "SmVerif.Tie.Small", "SmVerif.Tie.Decode", "SmVerif.Tie.Lookup", "SmVerif.Tie.Serialize", "SmVerif.Tie.Props"],
     "C10": ["SmVerif.Tie.Adjust"],
@@ -125,7 +127,7 @@ PROP_MODULES = {
     "C18": ["SmVerif.Tie.Detect"],
     "C20": ["SmVerif.Tie.RamBundle"],
     "C14": ["SmVerif.Tie.Vlq", "SmVerif.Tie.Hermes", "SmVerif.Tie.Props", "SmVerif.Tie.Index", "SmVerif.Tie.HermesDecode"],
-    "C17": ["SmVerif.Tie.Lookup", "SmVerif.Tie.JsIdent"],
+    "C17": ["SmVerif.Tie.Lookup", "SmVerif.Tie.JsIdent", "SmVerif.Tie.RevIter"],
     "C19": ["SmVerif.Tie.Paths"],
 }
 
